@@ -4,6 +4,7 @@ package interp
 // (see DESIGN.md appendix A).
 
 import (
+	"math"
 	"fmt"
 	"go/token"
 	"go/types"
@@ -193,7 +194,13 @@ func init() {
 		fr.i.opaqueAlloc = fr.i.branchVal(args[0])
 		return nil
 	}
-	externals[rt("Tier")] =func(fr *frame, args []value) value { return fr.i.cfg.Tier }
+	externals[rt("Tier")] = func(fr *frame, args []value) value { return fr.i.cfg.Tier }
+	externals[rt("Seed")] = func(fr *frame, args []value) value {
+		if fr.i.cfg.Seed < 0 {
+			return -fr.i.cfg.Seed
+		}
+		return fr.i.cfg.Seed
+	}
 	externals[rt("Symbolic")] = func(fr *frame, args []value) value { return fr.i.cfg.Concrete == nil }
 	externals[rt("FSPath")] = func(fr *frame, args []value) value { return "/vfs/" + strArg(args[0]) }
 	externals[rt("Settle")] = func(fr *frame, args []value) value { fr.i.settle(); return nil }
@@ -300,6 +307,25 @@ func init() {
 		st := (*p).(structure)
 		st[0] = data
 		return iface{}
+	}
+	// doubles travel as bit patterns: a symbolic float64 is its 64-bit pattern (no arithmetic)
+	externals["math.Float64frombits"] = func(fr *frame, args []value) value {
+		switch b := args[0].(type) {
+		case uint64:
+			return math.Float64frombits(b)
+		case sv:
+			return sv{b.t, types.Float64}
+		}
+		panic(unsupported("math.Float64frombits argument"))
+	}
+	externals["math.Float64bits"] = func(fr *frame, args []value) value {
+		switch f := args[0].(type) {
+		case float64:
+			return math.Float64bits(f)
+		case sv:
+			return sv{f.t, types.Uint64}
+		}
+		panic(unsupported("math.Float64bits argument"))
 	}
 	externals["crypto/internal/constanttime.boolToUint8"] = func(fr *frame, args []value) value {
 		switch b := args[0].(type) {
